@@ -10,6 +10,7 @@ import NormModel.Model.Engine
 import NormModel.Model.Header
 import NormModel.Model.Guard
 import NormModel.Model.Limits
+import NormModel.Model.Checks
 import NormModel.Generated.HeaderRegex
 open Lean Norm
 
@@ -59,22 +60,25 @@ def headerHandle (op : String) (j : Json) : Except String Json := do
                       ("guard", Json.str (String.ofList (guardOf base)))])
   | _ => throw ("unknown op " ++ op)
 
+/-- the rule table as observed on the implementation: the i-th iteration's decision -/
+def decisionStep (ds : Array Json) : Nat → Nat → StepRes Nat := fun i _ =>
+  match ds[i]? with
+  | none => .crash "decisions exhausted"
+  | some d =>
+    if d.isNull then .noMatch (i + 1)
+    else match d.getArr? with
+      | .ok a =>
+        match a[0]!.getStr?, a[1]!.getInt? with
+        | .ok r, .ok jmp => .matched r jmp (i + 1)
+        | _, _ => .crash "bad decision"
+      | .error _ => .fatal "rule raised"
+
 def engineHandle (op : String) (j : Json) : Except String Json := do
   if op != "engine" then return (← headerHandle op j)
   let n ← (j.getObjValD "n").getNat?
   let debug ← (j.getObjValD "debug").getNat?
   let ds ← (j.getObjValD "decisions").getArr?
-  let step : Nat → Nat → StepRes Nat := fun i _ =>
-    match ds[i]? with
-    | none => .crash "decisions exhausted"
-    | some d =>
-      if d.isNull then .noMatch (i + 1)
-      else match d.getArr? with
-        | .ok a =>
-          match a[0]!.getStr?, a[1]!.getInt? with
-          | .ok r, .ok jmp => .matched r jmp (i + 1)
-          | _, _ => .crash "bad decision"
-        | .error _ => .fatal "rule raised"
+  let step := decisionStep ds
   let segJson (t : List Segment) : Json :=
     Json.arr (t.map (fun g => Json.arr #[Json.str g.rule, Json.num (g.start : JsonNumber), Json.num (g.len : JsonNumber)])).toArray
   let natsJson (l : List Nat) : Json := Json.arr (l.map (fun (x : Nat) => Json.num (x : JsonNumber))).toArray
@@ -173,6 +177,21 @@ def handle (j : Json) : Except String Json := do
       pure (Json.mkObj [("tokens", Json.arr (r.tokens.map tokJson).toArray),
                         ("diags", Json.arr (r.diags.map diagJson).toArray),
                         ("items", Json.arr items.toArray)])
+  | "always" =>
+    -- source text -> model lexer -> engine loop (observed decisions) -> the always-run checks
+    let src ← ofCps (j.getObjValD "src")
+    let u ← uniOf j
+    let n ← (j.getObjValD "n").getNat?
+    let debug ← (j.getObjValD "debug").getNat?
+    let dsj ← (j.getObjValD "decisions").getArr?
+    match lex u src.toList with
+    | .error _ => pure (Json.mkObj [("outcome", "lexfail")])
+    | .ok r =>
+      if r.tokens.length != n then pure (Json.mkObj [("outcome", "token-count"), ("n", Json.num (r.tokens.length : JsonNumber))])
+      else match engineRun (decisionStep dsj) debug 0 n with
+        | .ok _ t _ =>
+          pure (Json.mkObj [("outcome", "ok"), ("diags", Json.arr ((alwaysDiagsRun r.tokens t).map diagJson).toArray)])
+        | _ => pure (Json.mkObj [("outcome", "other")])
   | "sort" =>
     let ds ← diagsOf (j.getObjValD "diags")
     pure (Json.mkObj [("sorted", Json.arr ((sortDiags ds).map diagJson).toArray),
